@@ -176,9 +176,12 @@ def snap_term(t):
 def snap_cell(v):
     """(visible, derived): visible = interior bytes; derived = ghost layer
     (full array bytes) and cache bytes."""
-    vis = akey(v.value)
+    # values, not storage type: apply_BCs / solves legitimately turn an integer
+    # or boolean value array into float64 holding the same numbers
+    vis = akey(np.asarray(v.value, dtype=float))
     c = cache_of(v)
-    der = (akey(full_array(v)), None if c is None else (snap_csr(c[0]), akey(c[1])))
+    der = (akey(np.asarray(full_array(v), dtype=float)),
+           None if c is None else (snap_csr(c[0]), akey(c[1])))
     return vis, der
 
 
